@@ -26,14 +26,22 @@ ASSUMPTIONS = [
 ]
 
 BUILD = (ops.CREATE * 2 + ops.SETTERS + ops.LINKS + ["write", "append", "append", "append", "resize", "prop_set",
-                                                     "prop_ext", "del", "del_dims"] + ["append"] * 4 + ["flush"] * 16)
+                                                     "prop_ext", "prop_clear", "del", "del_dims"] + ["append"] * 4 + ["flush"] * 16)
+
+
+ISOLATED = sorted(set(BUILD) - {"flush", "overwrite", "relink", "multi_append"})
 
 
 def child_run(path, side, prog, upto, do_flush, final):
     """runs in the forked child; never returns"""
     try:
-        it = Interp(path, compression="DeflateNormal" if final.get("compress") else None)
-        for op in prog[:upto]:
+        # the writer runs under a harness-owned clock that advances with every op, so that timestamps written
+        # by later ops differ from the ones of creation (a timestamp that misses the flush is a lost write too)
+        from props.c19 import _CLOCK, install_clock
+        install_clock()
+        it = Interp(path, compression="DeflateNormal" if final.get("compress") else None, clock=_CLOCK)
+        for i, op in enumerate(prog[:upto]):
+            _CLOCK.advance(1 + i % 3)
             if op["op"] == "flush":
                 it.f.flush()
             else:
@@ -138,6 +146,13 @@ def run_case(case, ctx):
     nt = (creations >= 3 or appends >= 1) and since >= 1
     classes = ["point:" + kind, "compress" if final.get("compress") else "plain",
                "appends:%d" % min(appends, 3), "since-last-flush:%d" % min(since, 5)]
+    between = []
+    for o in reversed(done):
+        if o["op"] == "flush":
+            break
+        between.append(o["op"])
+    if between and len(set(between)) == 1 and any(o["op"] == "flush" for o in done):
+        classes.append("only-since-previous-flush:" + between[0])
     for p in (path, path + ".walk.json"):
         try:
             os.remove(p)
@@ -163,6 +178,14 @@ def program_strategy(draw, max_ops):
         "compression": st.sampled_from(["DeflateNormal", "No"])}), max_size=2))
     for a in arrs:
         prog.insert(draw(st.integers(0, len(prog))), a)
+    # isolated intervals: between two flushes only ops of ONE kind happen (a write path that forgets to
+    # mark the file dirty / a buffer that only one kind of op fills shows only when nothing else is written)
+    S = ops.op_strategies(["a", "b", "sig"])
+    for _ in range(draw(st.integers(0, 3))):
+        kind = draw(st.sampled_from(ISOLATED))
+        body = [draw(S[kind]) for _ in range(draw(st.integers(1, 3)))]
+        at = draw(st.integers(min(len(prog), 8), len(prog)))
+        prog[at:at] = [{"op": "flush"}] + body + [{"op": "flush"}]
     return {"prog": prog, "compress": draw(st.booleans())}
 
 
